@@ -80,6 +80,8 @@ class Fn:
         self._dom = None
         self._defs = None
         self._sym_cache = {}
+        self._sym_cache_deep = {}
+        self._deep = False
         self._upvar_names = None
 
     def __repr__(self):
@@ -308,7 +310,43 @@ class Fn:
             self._upvar_names = m
         return self._upvar_names.get(idx)
 
+    def promoted_fn(self, idx):
+        ps = self.d.get("promoted") or []
+        if idx >= len(ps):
+            return None
+        if not hasattr(self, "_promoted"):
+            self._promoted = {}
+        if idx not in self._promoted:
+            d = dict(ps[idx])
+            d.setdefault("path", "%s::promoted[%d]" % (self.path, idx))
+            d.setdefault("kind", "promoted")
+            self._promoted[idx] = Fn(d, self.facts)
+        return self._promoted[idx]
+
     # ---- symbolic resolution -----------------------------------------------------------------
+    def deep(self):
+        """Context manager: resolve *through* user-named variables as well (default: a named
+        variable is a root, so that paths read `src`, `count`, `options.budget`)."""
+        fn = self
+
+        class _D:
+            def __enter__(self_):
+                self_.old = (fn._deep, fn._sym_cache)
+                fn._deep = True
+                fn._sym_cache = fn._sym_cache_deep
+                return fn
+
+            def __exit__(self_, *a):
+                fn._sym_cache_deep = fn._sym_cache
+                fn._deep, fn._sym_cache = self_.old
+                return False
+
+        return _D()
+
+    def sym_operand_deep(self, o):
+        with self.deep():
+            return self.sym_operand(o)
+
     def sym_local(self, l, depth=0):
         if l in self._sym_cache:
             return self._sym_cache[l]
@@ -316,6 +354,10 @@ class Fn:
             return ("local", l)
         if 1 <= l <= self.nargs:
             r = ("arg", l, self.local_name(l) or ("_%d" % l))
+            self._sym_cache[l] = r
+            return r
+        if not self._deep and self.local_name(l):
+            r = ("local", l, self.local_name(l))
             self._sym_cache[l] = r
             return r
         ds = [x for x in self.defs.get(l, []) if x[2] != "partial"]
@@ -401,6 +443,10 @@ class Fn:
                 return ("closure", c["closure"])
             if "v" in c:
                 return ("const", c["v"], c["ty"])
+            if "promoted" in c and depth < 30:
+                pf = self.promoted_fn(c["promoted"])
+                if pf is not None:
+                    return pf.sym_local(0)
             if "named" in c:
                 return ("namedconst", c["named"], c["ty"])
             return ("const?", c["ty"])
@@ -528,6 +574,7 @@ class Facts:
             f = Fn(d, self)
             self.foreign[norm(f.path)] = f
         self.adts = {norm(a["path"]): a for a in data["adts"]}
+        self.foreign_adts = {norm(a["path"]): a for a in data.get("foreign_adts", [])}
         self.impls = data["impls"]
         self.statics = data["statics"]
         self.consts = {c["path"]: c for c in data.get("consts", [])}
@@ -567,7 +614,7 @@ class Facts:
         return [f] + self.closures_of(f)
 
     def adt(self, npath):
-        a = self.adts.get(npath)
+        a = self.adts.get(npath) or self.foreign_adts.get(npath)
         if a is None:
             raise MissingAnchor("type not found: %s" % npath)
         return a
